@@ -151,6 +151,50 @@ def exec (v : Variant) (decode : List UInt8 → Option Info) (r : Registry) (p :
     else if cmd = cmdUNREGISTER then .reply (unregister r p args).1 (unregister r p args).2 rest
     else .reply (disconnect r p) (.err .invalid (ascii "invalid command " ++ cmd)) rest
 
+/-! ### The documented error table (specification of `Exec`) -/
+
+def errCodeOf : TcpOut → Option Code
+  | .err c _ => some c
+  | _ => none
+
+/-- Which error, if any, one command line gets (`params` = the words of the line, `rest` = the bytes after it):
+written from the protocol description, condition by condition — not by running the handlers.
+* `E_INVALID`: unknown command word; `IDENTIFY` on an identified connection; `REGISTER`/`UNREGISTER` before
+  `IDENTIFY` or without a topic;
+* `E_BAD_TOPIC`: `REGISTER`/`UNREGISTER` (identified) whose first argument is not a valid name;
+* `E_BAD_CHANNEL`: … whose topic is valid and whose second argument is non-empty and not a valid name;
+* `E_BAD_BODY`: first `IDENTIFY` with fewer than 4 size bytes, a size ≤ 0 or > 1 MiB, fewer body bytes than
+  declared, an undecodable body, or a document with a missing field;
+* nothing (the command succeeds) otherwise. -/
+def expectedErr (decode : List UInt8 → Option Info) (r : Registry) (p : Nat) (params : List Name)
+    (rest : List UInt8) : Option Code :=
+  match params with
+  | [] => none
+  | cmd :: args =>
+    if cmd = cmdPING then none
+    else if cmd = cmdIDENTIFY then
+      if identifiedB r p then some .invalid
+      else
+        match rest with
+        | a :: b :: c :: d :: body =>
+          if be32 a b c d > maxIdentifyBody ∨ be32 a b c d ≤ 0 then some .badBody
+          else if body.length < (be32 a b c d).toNat then some .badBody
+          else
+            match decode (body.take (be32 a b c d).toNat) with
+            | none => some .badBody
+            | some info => if missingFields info then some .badBody else none
+        | _ => some .badBody
+    else if cmd = cmdREGISTER ∨ cmd = cmdUNREGISTER then
+      if !identifiedB r p then some .invalid
+      else
+        match args with
+        | [] => some .invalid
+        | t :: _ =>
+          if !validName t then some .badTopic
+          else if chanParam args ≠ [] && !validName (chanParam args) then some .badChannel
+          else none
+    else some .invalid
+
 inductive End
   | eof          -- the client's stream ended (read error): loop exits, cleanup runs
   | fatal        -- a FatalClientErr was answered: loop exits, cleanup runs
@@ -216,6 +260,14 @@ def handleW (v : Variant) (decode : List UInt8 → Option Info) (wf : Nat → Bo
     else ⟨r, [ascii "E_BAD_PROTOCOL"], .badMagic⟩
   | _ => ⟨r, [], .shortMagic⟩
 
+/-- `reader.ReadString('\n')` keeps every byte of the current line in memory until the newline arrives (there is no
+maximum line length, lookup_protocol_v1.go:41): the number of bytes buffered before the first command of the
+stream can even be refused. `none`-case of `readLine`: all of them. -/
+def lineBuffered (inp : List UInt8) : Nat :=
+  match readLine inp with
+  | some lr => lr.1.length
+  | none => inp.length
+
 /-- a peer that reads every answer -/
 def handle (v : Variant) (decode : List UInt8 → Option Info) (r : Registry) (p : Nat) (now : Int)
     (inp : List UInt8) : Res := handleW v decode (fun _ => true) r p now inp
@@ -248,30 +300,84 @@ def routes : List (String × String × Handler) :=
    ("GET", "/debug/pprof/goroutine", .pprof), ("GET", "/debug/pprof/block", .pprof),
    ("GET", "/debug/pprof/threadcreate", .pprof)]
 
+/-! ### httprouter v1.3.0 `ServeHTTP` on this table
+
+Defaults of `httprouter.New()` (`RedirectTrailingSlash`, `RedirectFixedPath`, `HandleOPTIONS` all true) plus
+`HandleMethodNotAllowed = true`. A request whose method has a tree (`GET`, `POST` here) and whose path is not a
+registered path, but becomes one after `CleanPath` (`//`, `/./`, `/../`), ASCII case folding and adding / removing a
+trailing slash, is REDIRECTED (301 for GET, 307 for every other method), not answered 404. -/
+
+/-- ASCII lower-casing (every registered path is lower-case ASCII) -/
+def lowerC (c : Char) : Char := if 'A' ≤ c ∧ c ≤ 'Z' then Char.ofNat (c.toNat + 32) else c
+
+/-- `strings.Split(p, "/")` -/
+def splitSlash : List Char → List (List Char)
+  | [] => [[]]
+  | c :: rest =>
+    if c = '/' then [] :: splitSlash rest
+    else
+      match splitSlash rest with
+      | w :: ws => (c :: w) :: ws
+      | [] => [[c]]
+
+/-- the elements `CleanPath` keeps (`st` = the kept ones so far, last first): empty and `.` elements are dropped,
+`..` removes the element before it (if any) -/
+def cleanSegs : List (List Char) → List (List Char) → List (List Char)
+  | [], st => st.reverse
+  | s :: ss, st =>
+    if s = [] ∨ s = ['.'] then cleanSegs ss st
+    else if s = ['.', '.'] then cleanSegs ss st.tail
+    else cleanSegs ss (s :: st)
+
+def joinSlash : List (List Char) → List Char
+  | [] => []
+  | s :: ss => '/' :: s ++ joinSlash ss
+
+/-- `httprouter.CleanPath` (path.go): rooted, no empty / `.` / inner `..` elements; a trailing slash survives
+(also one that comes from a final `.` element) unless the result is `/` -/
+def cleanPath (p : List Char) : List Char :=
+  if cleanSegs (splitSlash p) [] = [] then ['/']
+  else joinSlash (cleanSegs (splitSlash p) []) ++
+    (if (decide (p.length > 1) && p.getLast? == some '/') || (splitSlash p).getLast? == some ['.'] then ['/'] else [])
+
+/-- `findCaseInsensitivePath(CleanPath(path), fixTrailingSlash = true)` on the tree of `method`, for ASCII paths:
+some registered path of that method equals the cleaned, lower-cased path, with or without one trailing slash.
+(httprouter folds case with `strings.EqualFold`, i.e. also the non-ASCII runes U+212A / U+017F; paths with
+non-ASCII bytes are outside the class the correspondence ties — named in the manifest.) -/
+def fixMatches (tbl : List (String × String × α)) (method : String) (path : String) : Bool :=
+  tbl.any (fun e => e.1 = method &&
+    ((cleanPath path.toList).map lowerC = e.2.1.toList || (cleanPath path.toList).map lowerC = e.2.1.toList ++ ['/']))
+
 inductive Route
   | found (h : Handler)
-  | options              -- OPTIONS on an existing path: httprouter answers 200 + Allow itself
+  | options              -- OPTIONS on an existing path (or `OPTIONS *`): 200 + Allow, no handler runs
   | methodNotAllowed     -- 405: the path exists for another method
   | notFound             -- 404
+  | redirect (code : Nat) -- 301 (GET) / 307 (other methods): RedirectTrailingSlash / RedirectFixedPath
 deriving DecidableEq, Repr
 
-/-- httprouter with `HandleMethodNotAllowed = true` on a table of static paths -/
+/-- httprouter `ServeHTTP` with `HandleMethodNotAllowed = true` on a table of static paths -/
 def route (method path : String) : Route :=
   match routes.find? (fun e => e.1 = method && e.2.1 = path) with
   | some e => .found e.2.2
   | none =>
-    if routes.any (fun e => e.2.1 = path) then
-      (if method = "OPTIONS" then .options else .methodNotAllowed)
+    if routes.any (fun e => e.1 = method) && method ≠ "CONNECT" && path ≠ "/" && fixMatches routes method path then
+      .redirect (if method = "GET" then 301 else 307)
+    else if method = "OPTIONS" then
+      (if path = "*" || routes.any (fun e => e.2.1 = path) then .options else .notFound)
+    else if routes.any (fun e => e.2.1 = path) then .methodNotAllowed
     else .notFound
 
 /-- status and effect of one HTTP request on the registry (pprof/ping/info and the four
-queries do not touch it) -/
+queries do not touch it). For a pprof row this is the answer of an undisturbed call with good arguments
+(`httpOutcomes` is the whole set). -/
 def httpStep (c : Conf) (r : Registry) (method path : String) (a : HttpArgs) (now : Int) :
     Registry × Nat :=
   match route method path with
   | .notFound => (r, 404)
   | .methodNotAllowed => (r, 405)
   | .options => (r, 200)
+  | .redirect code => (r, code)
   | .found .createTopic => ((createTopic r a).1, (createTopic r a).2.status)
   | .found .deleteTopic => ((deleteTopic r a).1, (deleteTopic r a).2.status)
   | .found .createChannel => ((createChannel r a).1, (createChannel r a).2.status)
@@ -292,6 +398,36 @@ def httpStep (c : Conf) (r : Registry) (method path : String) (a : HttpArgs) (no
       | none => (r, 400)
       | some _ => (r, 200)
   | .found _ => (r, 200)
+
+/-- Statuses the `net/http/pprof` handler (Go 1.23) mounted at a pprof row may answer; which one depends on
+arguments the model does not interpret (`seconds`, `debug`, `gc`) and on process-wide state (a CPU profile already
+running): `Profile` answers 500 "Could not enable CPU profiling" while another CPU profile is running;
+`Handler(name)` answers 400 for a `seconds` argument that is not a positive integer or that comes with `debug`.
+(Not listed: 408/500 written after the client of a delta profile has gone away.) -/
+def pprofStatuses (path : String) : List Nat :=
+  if path = "/debug/pprof/profile" then [200, 500]
+  else if path = "/debug/pprof/heap" ∨ path = "/debug/pprof/goroutine" ∨ path = "/debug/pprof/block" ∨
+      path = "/debug/pprof/threadcreate" then [200, 400]
+  else [200]
+
+/-- every allowed (registry, status) result of one request: a SET for the pprof rows, one element otherwise -/
+def httpOutcomes (c : Conf) (r : Registry) (method path : String) (a : HttpArgs) (now : Int) :
+    List (Registry × Nat) :=
+  match route method path with
+  | .found .pprof => (pprofStatuses path).map (fun st => (r, st))
+  | _ => [httpStep c r method path a now]
+
+/-! ### What an accepted admin call may touch (specification, `Nsq.Props.C15.admin_call_touches_only`) -/
+
+/-- what `/topic/delete?topic=t` removes: every channel key and the topic key whose `Key` is `t` — or, for
+`t = "*"` (the wild card of `FindRegistrations`), of every topic -/
+def delTouched (t : Name) (k : Key) : Bool :=
+  (k.cat = .channel || (k.cat = .topic && k.sub = [])) && (t = star || k.key = t)
+
+/-- what `/topic/tombstone?topic=t&node=n` may mark: the entry of a producer whose `broadcast_address:http_port`
+is `n`, under the topic key of `t` (`t = "*"`: under a topic key) -/
+def tombTouched (r : Registry) (t node : Name) (k : Key) (q : Nat) : Bool :=
+  k.cat = .topic && k.sub = [] && (t = star || k.key = t) && nodeMatches r q node
 
 /-- body of `GET /ping` (`pingHandler` returns "OK", `http_api.PlainText` writes it as is) -/
 def pingBody : List UInt8 := [79, 75]
